@@ -18,7 +18,7 @@ def run_seed(seed):
     env = dict(os.environ)
     env["PYTHONHASHSEED"] = str(seed)
     env["VERIF_KEEP_HASHSEED"] = "1"
-    p = subprocess.run([sys.executable, WORKER, "/repo", direction], env=env, capture_output=True, text=True, timeout=300)
+    p = subprocess.run([sys.executable, WORKER, os.path.dirname(os.path.dirname(os.path.abspath(__import__("redun").__file__))), direction], env=env, capture_output=True, text=True, timeout=300)
     if p.returncode != 0:
         raise RuntimeError(f"worker seed {seed} failed: {p.stderr[-2000:]}")
     return (seed if direction == "fwd" else f"{seed}/reverse-order"), json.loads(p.stdout)
